@@ -966,6 +966,17 @@ class SetIndex(BaseSetIndexSortValues):
         ):
             return self._filter_simplification(parent)
 
+    def _filter_simplification(self, parent, predicate=None):
+        if not isinstance(self._other, Expr):
+            return super()._filter_simplification(parent, predicate)
+        # The new index is a Series of its own that is matched to the frame
+        # by position, so the rows have to be removed from both of them
+        if predicate is None:
+            predicate = parent.predicate.substitute(self, self.frame)
+        return type(self)(
+            self.frame[predicate], self._other[predicate], *self.operands[2:]
+        )
+
     def _filter_passthrough_available(self, parent, dependents):
         if is_filter_pushdown_available(self, parent, dependents):
             from dask_expr._expr import Index
